@@ -2,9 +2,10 @@
 (* `gaftools sort`: the sort key of an alignment over a BO/NO-tagged rGFA, the order it        *)
 (* induces, the three fields appended to every record, and the .gsi index - as operators, and   *)
 (* as the two-pass machine of sort.py (ReadRecord* ; Sort ; WriteRecord* ; Finish).             *)
-EXTENDS Integers, Sequences, FiniteSets, TLC, Json
+EXTENDS Integers, Sequences, FiniteSets, TLC, Json, IOUtils
 
-Graph == JsonDeserialize("data/sort_graph.json")   \* node |-> [sn, so, ln, sr, bo, no]; bo = no = -1: untagged
+GraphFile == IF "SORT_GRAPH" \in DOMAIN IOEnv THEN IOEnv.SORT_GRAPH ELSE "data/sort_graph.json"   \* a second tagging of the same node ids: data/sort_graph_b.json
+Graph == JsonDeserialize(GraphFile)   \* node |-> [sn, so, ln, sr, bo, no]; bo = no = -1: untagged
 Pool  == JsonDeserialize("data/sort_pool.json")    \* records [walk |-> <<<<o, id>>, ...>>, ps, pe]
 
 PLen(r) == LET RECURSIVE S(_) S(k) == IF k = 0 THEN 0 ELSE S(k - 1) + Graph[r.walk[k][2]].ln IN S(Len(r.walk))
